@@ -129,12 +129,12 @@ func (p *FloatingIPPlugin) getSubnet(pod *corev1.Pod) (sets.String, error) {
 	var replicas int
 	var isPoolSizeDefined bool
 	if keyObj.Deployment() {
+		// Lock to make reading the pool size, checking available subnets and allocating reserved ip atomic
+		defer p.LockDpPool(keyObj.PoolPrefix())()
 		replicas, isPoolSizeDefined, err = p.getDpReplicas(keyObj)
 		if err != nil {
 			return nil, err
 		}
-		// Lock to make checking available subnets and allocating reserved ip atomic
-		defer p.LockDpPool(keyObj.PoolPrefix())()
 	}
 	subnetSet, reserve, err := p.getAvailableSubnet(keyObj, policy, replicas, isPoolSizeDefined, ipranges)
 	if err != nil {
